@@ -9,7 +9,8 @@ ID = 'C04'
 ENGINE = 'E1 choice-point explorer, deviation-bounded over {full, bare} default objects'
 RULE = ("per (object kind, base mode) shard: every attribute x every value/multiplicity option (unset, scalar, [], "
         "1, 2, 128, 200 values, nested lists) x units x assignment route x named/unnamed set x position in the set, up "
-        "to the deviation bound; non-trivial = file written and every EFLR parsed under the strict component grammar "
+        "to the deviation bound; when the write of such an object is rejected, the object is repaired through the "
+        "setters and written again (the second file must decode too); non-trivial = file written and every EFLR parsed under the strict component grammar "
         "and cross-checked against the model's object and attribute counts")
 ASSUMPTIONS = ["strict component parser mc/rp66.py", "reference model mc/model.py for the object/attribute count "
                "cross-check"]
@@ -69,12 +70,57 @@ def grammar_errors(data, sp):
     return errs
 
 
+def repaired_rewrite(sp, info, shard):
+    """The write was rejected: give every assigned attribute of the object under test its valid default through the
+    public setters and write the same objects again. Returns (bytes | None, repaired spec)."""
+    import os
+    from mc.engine import scratch_dir
+    kind = shard['kind']
+    b = S.build(sp)
+    if b.failed_at is not None:
+        return None, None
+    path = os.path.join(scratch_dir(), 'c04-retry.dlis')
+    try:
+        b.df.write(path, **S.write_kwargs(sp, b))
+        return None, None           # not deterministic?! (the first attempt raised) - let the caller ignore it
+    except Exception:  # noqa
+        pass
+    repair = []
+    for ad in lattice.settable(kind):
+        if ad.kw in info['assigned'] and not (kind == 'frame' and ad.kw == 'channels'):
+            opts = lattice.options(kind, ad, 'quick')
+            d0 = lattice.FULL_OVERRIDES.get((kind, ad.kw), opts[0])
+            if shard['mode'] == 'rank2':
+                d0 = lattice.RANK2_OVERRIDES.get((kind, ad.kw), d0)
+            if kind == 'origin' and ad.kw == 'file_set_number':
+                continue
+            repair.append({'op': 'set', 'h': 'T', 'attr': ad.attr, 'part': 'value', 'value': d0})
+    for op in repair:
+        if S.apply_op(b, op) != 'ok':
+            return None, None
+    try:
+        b.df.write(path, **S.write_kwargs(sp, b))
+    except Exception:  # noqa
+        return None, None
+    return open(path, 'rb').read(), dict(sp, ops=sp['ops'] + repair)
+
+
 def check(sp, info, shard):
     res = S.run_spec(sp)
     if res['failed_at'] is not None:
         return Outcome('build-raised', [], False, digest=res['status'][-1][:50])
     if res['write'] != 'ok':
-        return Outcome('write-raised', [], False, digest=res['write'][:50])
+        data, sp2 = repaired_rewrite(sp, info, shard)
+        if data is None:
+            return Outcome('write-raised', [], False, digest=res['write'][:50])
+        viol = []
+        try:
+            for code, d in grammar_errors(data, sp2):
+                viol.append((f"C04:{code}:write-after-rejected-write", f"{d[:300]} | first write: {res['write'][:80]} | "
+                                                                       f"kind={shard['kind']} assigned={_brief(info)}"))
+        except R.FormatError as e:
+            viol.append((f"C04:physical:{e.code}:write-after-rejected-write", f"{e} | {shard}"))
+        return Outcome('write-raised:repaired-and-rewritten', viol, True, digest=sha(data))
     viol = []
     try:
         for code, d in grammar_errors(res['data'], sp):
